@@ -270,7 +270,9 @@ func longestPrefix(s1, s2 string) int {
 
 		switch s1[i] {
 		case startByte:
-			startIndex = i
+			if state != startByte { // 命名参数的名称中可能包含 {，参数从第一个 { 开始。
+				startIndex = i
+			}
 			state = startByte
 		case endByte:
 			state = endByte
